@@ -715,7 +715,7 @@ def run_C18(ctx):
                 runs.append(dict(threads=threads, millis=millis, operations=d["operations"], panics=d["panic_count"]))
                 note_edges(d["lock_edges"], "stress %d threads" % threads)
                 if d["hung_threads"]:
-                    failures.append(dict(signature="caller-thread-hung", what="caller threads %s made no progress for 3 s under %d threads (a call never returned)" % (d["hung_threads"], threads),
+                    failures.append(dict(signature="caller-thread-hung", what="caller threads %s made no progress for 8 s under %d threads (a call never returned)" % (d["hung_threads"], threads),
                                          threads=threads, millis=millis, seed=seed + n, roles=d["roles"]))
                 for role, st in d["roles"].items():
                     if "Dead" in st:
